@@ -273,27 +273,32 @@ def r3_order_multiplicity(ctx) -> None:
             r.ok("C08.R3", cv.qual, "self.finalize(queries, ...) once, on the full list in rule order (equal queries of different rules kept); its result is returned", cv.loc)
         else:
             r.violation("C08.R3", cv.qual, f"return self.finalize(queries, ...): finalize calls {[t[1] for t in fins]}, result {o.ret!r}", f"finalize is not called exactly once on the complete query list {want} (re-ordered, de-duplicated or filtered queries)", cv.loc)
-    # convert_rule loop
+    # convert_rule interpreted on a stand-in rule with two conditions: each converted once, in order, with a state of its own;
+    # a condition whose conversion yields nothing (None) emits no query
+    from .standins import run_per_rule_converter
     cr = prog.func(PER_RULE[0])
-    loops = [n for n in walk_no_nested(cr.node) if isinstance(n, ast.For) and "parsed_condition" in unparse(n.iter)]
-    if len(loops) != 1:
-        r.violation("C08.R3", cr.qual, "for index, cond in enumerate(rule.detection.parsed_condition)", f"{len(loops)} loops over the parsed conditions (exactly one expected)", cr.loc)
-    else:
-        lp = loops[0]
-        conv = [c for c in ast.walk(lp) if isinstance(c, ast.Call) and call_name(c) == "self.convert_condition"]
-        apps = [c for c in ast.walk(lp) if isinstance(c, ast.Call) and call_name(c).endswith(".append")]
-        lloc = f"{cr.module.relpath}:{lp.lineno}"
-        if len(conv) == 1 and len(apps) == 1 and unparse(apps[0].func.value) == "queries":
-            r.ok("C08.R3", cr.qual, "one convert_condition and one queries.append per parsed condition", lloc)
+    for nothing_for in (None, "c1", "c0"):
+        seen: list = []
+        def convert_fn(c, st, _seen=seen, _n=nothing_for):
+            _seen.append((c, st))
+            return None if c == _n else c
+        o2 = run_per_rule_converter(ctx, "convert_rule", convert_fn=convert_fn)
+        what = f"conversion of {nothing_for} yields nothing" if nothing_for else "both conditions yield a query"
+        if o2.raised is not None:
+            r.violation("C08.R3", cr.qual, f"convert_rule on a rule with two conditions ({what})", f"raises {o2.raised}", cr.loc)
+            continue
+        conds_seen = [c for c, _ in seen]
+        states_distinct = len({id(st) for _, st in seen}) == len(seen)
+        want_q = [f"FINAL(fin({c}))" for c in ("c0", "c1") if c != nothing_for]
+        if conds_seen != ["c0", "c1"]:
+            r.violation("C08.R3", cr.qual, "for index, cond in enumerate(rule.detection.parsed_condition): convert_condition(cond.parsed, state)", f"convert_condition is called for {conds_seen} instead of once per condition in order ({what})", cr.loc)
+        elif not states_distinct:
+            r.violation("C08.R3", cr.qual, "states = [ConversionState() for _ in rule.detection.parsed_condition]", "the conditions of a rule share one conversion state object: deferred parts of one query end up in the other", cr.loc)
+        elif o2.ret != want_q:
+            r.violation("C08.R3", cr.qual, "if result is not None: queries.append(result)", f"{what}: the rule yields {o2.ret!r} instead of {want_q!r}" + (" — a None conversion result would be emitted as a query" if nothing_for else ""), cr.loc)
         else:
-            r.violation("C08.R3", cr.qual, stmt_head(lp), f"{len(conv)} convert_condition calls / {len(apps)} appends per condition (1/1 expected)", lloc)
-        for a in apps:
-            gs = atomic_guards(guards_at(prog, cr, a))
-            if ("result is not None", True) in gs or ("result is None", False) in gs:
-                r.ok("C08.R3", cr.qual, "append guarded by `result is not None`", f"{cr.module.relpath}:{a.lineno}")
-            else:
-                r.violation("C08.R3", cr.qual, short(a, 80), "a None conversion result would be emitted as a query", f"{cr.module.relpath}:{a.lineno}")
-    r.floor("C08.R3", 4)
+            r.ok("C08.R3", cr.qual, f"one convert_condition per parsed condition, each with its own state; {what}: {len(want_q)} quer{'y' if len(want_q) == 1 else 'ies'} (interpreted)", cr.loc)
+    r.floor("C08.R3", 5)
 
 
 def r5_no_swallowing_handlers(ctx, rid: str = "C08.R5") -> None:
